@@ -19,8 +19,22 @@ BASE_FEATS = ("deform", "area_um", "contour", "trace", "fl1_max",
               "time", "frame", "pos_x", "index")
 
 
-def feats_of(content):
-    return BASE_FEATS + tuple(sorted(content))
+def feats_of(content, fl="fl1"):
+    base = BASE_FEATS if fl == "fl1" else tuple(
+        f for f in BASE_FEATS if f not in ("trace", "fl1_max")) + (
+            fl + "_max",)
+    return base + tuple(sorted(content))
+
+
+def meta_of(fl):
+    if fl == "fl1":
+        return None
+    k = fl[2]
+    fm = dict(gen.META["fluorescence"])
+    fm.pop("channel 1 name")
+    fm["channel %s name" % k] = "FL" + k
+    fm.pop("samples per event", None)
+    return {"fluorescence": fm}
 KEYWORDS = {
     "feature length differs from the event count": "wrong event count",
     "image size contradicts the ROI metadata": "roi size",
@@ -36,16 +50,17 @@ KEYWORDS = {
 }
 
 
-def produce(path_kind, d, content):
+def produce(path_kind, d, content, fl="fl1"):
     """a file written by one of dclab's write paths"""
     import dclab
     from dclab import cli
     from dclab.rtdc_dataset import RTDCWriter
     n = 8
-    FEATS = feats_of(content)
+    FEATS = feats_of(content, fl)
+    META2 = meta_of(fl)
     ids = list(range(1, n + 1))
     base = d / "base.rtdc"
-    gen.write_rtdc(base, ids, feats=FEATS, logs={"l": ["x"]})
+    gen.write_rtdc(base, ids, feats=FEATS, logs={"l": ["x"]}, meta=META2)
     out = d / "file.rtdc"
     with contextlib.redirect_stdout(io.StringIO()):
         if path_kind == "writer":
@@ -107,6 +122,8 @@ def corrupt(path, c, d):
                 del ev["index"]
             ev.create_dataset("index", data=np.arange(n) + (
                 0 if n % 2 else 8))
+        elif c == "flmissing":
+            del h5.attrs["fluorescence:sample rate"]
         elif c == "chcount":
             h5.attrs["fluorescence:channel count"] = 3
         elif c == "lasers":
@@ -136,7 +153,7 @@ def _case(job):
     out = []
     try:
         try:
-            p = produce(case["path"], d, case["content"])
+            p = produce(case["path"], d, case["content"], case.get("fl", "fl1"))
         except BaseException as exc:
             return dict(case), [("write path %s raises %s" % (
                 case["path"], type(exc).__name__), repr(exc)[:200])]
